@@ -15,7 +15,7 @@ PROPS = {
  "C02": dict(driver="crashsim", budget=dict(quick=75, thorough=1500), chunk=8, rule=CRASH_RULE,
              technique="deterministic simulation: recorded I/O trace, crash/torn-write fault injection at every prefix, reference-model oracle",
              assumptions=["same crash model as C01", "a difference is attributed to C02 when the surviving/missing row version belongs to a transaction that had not committed at the crash point, otherwise to C01"]),
- "C08": dict(driver="crashsim", budget=dict(quick=45, thorough=900), chunk=20, rule=CRASH_RULE.replace("followed by a restart", "checked by the M-WAL seam monitor (every WritePage/WriteLog/commit-return of the run); for the crash properties followed by a restart"),
+ "C08": dict(driver="crashsim+consim", budget=dict(quick=60, thorough=900), chunk=20, rule=CRASH_RULE.replace("followed by a restart", "checked by the M-WAL seam monitor (every WritePage/WriteLog/commit-return of the run); for the crash properties followed by a restart"),
              technique="deterministic simulation with a seam monitor over the recorded I/O trace (independent log decoder)",
              assumptions=["a heap page's embedded LSN of 0 means never stamped", "LSNs are handed out and flushed in order, so a page LSN is durable iff it is <= the highest LSN seen in WriteLog payloads so far"]),
  "C20": dict(driver="crashsim", budget=dict(quick=75, thorough=1500), chunk=8, rule=CRASH_RULE,
@@ -68,7 +68,7 @@ CON_RULE = ("one evaluation = one simulated concurrent execution: client tasks, 
 PROPS["C12"] = dict(driver="consim", budget=dict(quick=60, thorough=1500), chunk=40, rule=CON_RULE,
     technique="deterministic simulation under a seeded scheduler; histories stamped with the scheduler's global step counter and checked for linearizability with porcupine (no-row-change workload) and for exactly-once effects (insert/delete/update workload); exact deadlock detection and a step budget for progress",
     assumptions=["preemption happens at synchronisation, channel, disk and yield points, not between arbitrary instructions",
-                 "progress: a run must finish within 3,000,000 scheduler steps and 6 simulated hours; deadlock is detected exactly (no runnable task, no pending timer)",
+                 "progress: a run must finish within 600,000 scheduler steps and 6 simulated hours; deadlock is detected exactly (no runnable task, no pending timer)",
                  "porcupine results of Unknown (20 s timeout) are counted, never reported"])
 TXN_RULE = ("one evaluation = one set of 2-3 (txnsim) or 2-12 (consim) multi-statement transaction programs over 2-5 rows with unique "
             "written values (reads through index and scan paths, read-modify-write on the row read, write skew shapes, range reads and "
